@@ -216,7 +216,8 @@ Iterate(s, npos, named) ==
     LET s1  == [s EXCEPT !.fors = SubSeq(s.fors, 1, d)]
         nv  == Get(s, r.v) + r.step
         cv  == Conv(s, r.v, nv) IN
-    IF ~cv.ok THEN [s |-> Raise(s1, 6), cont |-> TRUE] ELSE
+    \* (counter overflow is reported on the line of the NEXT, also when a skipped FOR increments the counter once)
+    IF ~cv.ok THEN [s |-> RaiseAt(s1, 6, LineNo(s, <<npos[1], npos[2]>>)), cont |-> TRUE] ELSE
     IF Abs(nv) > Limit THEN [s |-> Frag(s1), cont |-> TRUE] ELSE
     LET s2   == SetVar(s1, r.v, nv)
         ends == IF r.sgn > 0 THEN nv > r.stop ELSE r.stop > nv IN
